@@ -1071,11 +1071,30 @@ func (w *vfXWorld) restore(st vfStep, ev map[string]any) {
 		vfInfra("secret store: %v", err)
 	}
 	if used {
-		// the target store already holds an account (a fresh one, created on first use)
-		if _, _, err := ss.GetGroupForAccount(); err != nil {
-			vfInfra("account creation on target: %v", err)
+		// the target store already holds an account: a complete one (created on first use), or - the two
+		// account keys are generated lazily and independently - only its account key or only its proof key
+		switch flavour := w.nExport % 3; flavour {
+		case 0:
+			if _, _, err := ss.GetGroupForAccount(); err != nil {
+				vfInfra("account creation on target: %v", err)
+			}
+			ev["usedhow"] = "full"
+			ev["tkeys"] = vfXKeyDigest(ss)
+		case 1:
+			if _, err := ss.GetAccountPrivateKey(); err != nil {
+				vfInfra("account key creation on target: %v", err)
+			}
+			ev["usedhow"] = "account-key-only"
+		default:
+			mg, _, err := protocoltypes.NewGroupMultiMember()
+			if err != nil {
+				vfInfra("group: %v", err)
+			}
+			if _, err := ss.GetOwnMemberDeviceForGroup(mg); err != nil {
+				vfInfra("member key derivation on target: %v", err)
+			}
+			ev["usedhow"] = "proof-key-only"
 		}
-		ev["tkeys"] = vfXKeyDigest(ss)
 	}
 	node := ipfsutil.TestingCoreAPIUsingMockNet(ctx, tb, &ipfsutil.TestingAPIOpts{Mocknet: mn, Datastore: ds, Logger: zap.NewNop(), DiscoveryServer: tinder.NewMockDriverServer()})
 	logger := zap.NewNop()
